@@ -308,4 +308,368 @@ theorem sampleW_agrees (lum : List Nat) (w h : Nat) :
   rw [show List.range' 1 4 = [1, 2, 3, 4] from rfl, this]
   cases mapME (sampleRowAt lum.toArray w h) [1, 2, 3, 4] <;> rfl
 
+/-! ### block copies into a fresh array: `GetMatrix` (row by row) and `RotateCounterClockwise` (column by column) -/
+
+open Gzx.Luminance in
+/-- a `Fault` as a view error -/
+def liftV {α : Type} : Res α → Luminance.VRes α
+  | .ok a => .ok a
+  | .error f => .error (.fault f)
+
+theorem mapME_liftV {α β : Type} (f : β → Res α) : ∀ l : List β, mapME (fun a => liftV (f a)) l = liftV (mapME f l)
+  | [] => rfl
+  | a :: l => by
+    simp only [mapME]
+    rw [mapME_liftV f l]
+    cases f a with
+    | error e => rfl
+    | ok b => cases mapME f l <;> rfl
+
+theorem mapME_append_single {ε α β : Type} (f : α → Except ε β) : ∀ (l : List α) (a : α),
+    mapME f (l ++ [a]) =
+      match mapME f l with
+      | .error e => .error e
+      | .ok bs => match f a with
+        | .error e => .error e
+        | .ok b => .ok (bs ++ [b])
+  | [], a => by simp only [List.nil_append, mapME]; cases f a <;> rfl
+  | x :: l, a => by
+    simp only [List.cons_append, mapME]
+    cases f x with
+    | error e => rfl
+    | ok b =>
+      simp only []
+      rw [mapME_append_single f l a]
+      cases mapME f l with
+      | error e => rfl
+      | ok bs => cases f a <;> rfl
+
+/-- `xs[a:b]` (capacity = length) on a model byte list, as a `Fault` -/
+def sliceN (l : List Nat) (a b : Nat) : Res (List Nat) :=
+  if a ≤ b ∧ b ≤ l.length then .ok ((l.drop a).take (b - a)) else .error (.panic "slice bounds out of range")
+
+theorem slice_eq_liftV (l : List Nat) (a b : Nat) : Luminance.slice l a b = liftV (sliceN l a b) := by
+  unfold Luminance.slice sliceN
+  by_cases h : a ≤ b ∧ b ≤ l.length <;> simp [h, liftV, Luminance.vpanic]
+
+theorem sliceN_length (l : List Nat) (a w : Nat) (r : List Nat) (h : sliceN l a (a + w) = .ok r) : r.length = w := by
+  unfold sliceN at h
+  split at h
+  · injection h with h; subst h; simp; omega
+  · cases h
+
+/-- `copy(dst[lo:hi], src)` on model byte lists -/
+def copySegN (dst : List Nat) (lo hi : Nat) (src : List Nat) : Res (List Nat) :=
+  if lo ≤ hi ∧ hi ≤ dst.length then
+    .ok (dst.take lo ++ copyInto ((dst.drop lo).take (hi - lo)) src ++ dst.drop hi)
+  else .error (.panic "slice bounds out of range")
+
+/-- a block of `bw` elements copied to position `lo` with either upper bound the Go code uses (`lo+bw` or `len dst`) -/
+theorem copySegN_block (dst : List Nat) (lo hi : Nat) (src : List Nat) (hl : lo + src.length ≤ dst.length)
+    (hh : hi = lo + src.length ∨ hi = dst.length) :
+    copySegN dst lo hi src = .ok (dst.take lo ++ src ++ dst.drop (lo + src.length)) := by
+  unfold copySegN copyInto
+  have hc : lo ≤ hi ∧ hi ≤ dst.length := by omega
+  simp only [hc, and_self, if_true]
+  congr 1
+  rcases hh with hh | hh
+  · subst hh
+    have e1 : ((dst.drop lo).take (lo + src.length - lo)).length = src.length := by simp; omega
+    rw [e1, List.take_length, List.drop_eq_nil_of_le (by rw [e1]; omega)]
+    simp
+  · subst hh
+    have e0 : (dst.drop lo).take (dst.length - lo) = dst.drop lo := List.take_of_length_le (by simp)
+    rw [e0, List.length_drop, List.take_of_length_le (by omega : src.length ≤ dst.length - lo), List.drop_drop,
+      List.drop_eq_nil_of_le (Nat.le_refl dst.length)]
+    simp
+
+theorem drop_append_len {α : Type} (l1 l2 : List α) (n i : Nat) (h : l1.length = n) : (l1 ++ l2).drop (n + i) = l2.drop i := by
+  subst h; simp
+
+/-- **filling a fresh array block by block**: a step that puts block `j` (of `bw` elements) at `j*bw` turns `t0` into the blocks so
+    far followed by the untouched rest; errors are those of the first failing block -/
+theorem foldlM_blocks {ε : Type} (bw n : Nat) (rowF : Nat → Except ε (List Nat)) (step : List Nat → Nat → Except ε (List Nat))
+    (hrow : ∀ j r, rowF j = .ok r → r.length = bw)
+    (hstep : ∀ t j, j < n → t.length = n * bw → step t j =
+      match rowF j with
+      | .ok r => .ok (t.take (j * bw) ++ r ++ t.drop (j * bw + bw))
+      | .error e => .error e) :
+    ∀ k, k ≤ n → ∀ t0 : List Nat, t0.length = n * bw →
+      (List.range' 0 k).foldlM step t0 =
+        match mapME rowF (List.range' 0 k) with
+        | .ok rows => .ok (rows.flatten ++ t0.drop (k * bw))
+        | .error e => .error e := by
+  intro k
+  induction k with
+  | zero => intro _ t0 _; simp [mapME, pure, Except.pure]
+  | succ k ih =>
+    intro hk t0 ht0
+    rw [List.range'_1_concat, List.foldlM_append, ih (by omega) t0 ht0, mapME_append_single, Nat.zero_add]
+    have hlen : ∀ rows, mapME rowF (List.range' 0 k) = .ok rows → rows.flatten.length = k * bw := by
+      have gen : ∀ (l : List Nat) rows, mapME rowF l = .ok rows → rows.flatten.length = l.length * bw := by
+        intro l
+        induction l with
+        | nil => intro rows h; simp only [mapME, Except.ok.injEq] at h; subst h; simp
+        | cons a l ihl =>
+          intro rows h
+          simp only [mapME] at h
+          cases hfa : rowF a with
+          | error e => simp [hfa] at h
+          | ok r =>
+            cases hm : mapME rowF l with
+            | error e => simp [hfa, hm] at h
+            | ok rs =>
+              simp only [hfa, hm, Except.ok.injEq] at h
+              subst h
+              simp only [List.flatten_cons, List.length_append, List.length_cons, hrow a r hfa, ihl rs hm]
+              rw [Nat.add_mul]; omega
+      intro rows h
+      have := gen _ rows h
+      simpa using this
+    cases hm : mapME rowF (List.range' 0 k) with
+    | error e => simp [bind, Except.bind]
+    | ok rows =>
+      have hl := hlen rows hm
+      have hkb : k * bw + bw ≤ n * bw := by
+        have : (k + 1) * bw ≤ n * bw := Nat.mul_le_mul_right bw hk
+        rw [Nat.add_mul] at this; omega
+      simp only [bind, Except.bind, List.foldlM, pure, Except.pure]
+      rw [hstep _ k (by omega) (by simp [hl, ht0]; omega)]
+      cases hr : rowF k with
+      | error e => rfl
+      | ok r =>
+        simp only []
+        congr 1
+        have hrl := hrow k r hr
+        have hX1 : (rows.flatten ++ t0.drop (k * bw)).take (k * bw) = rows.flatten := List.take_left' hl
+        have hX2 : (rows.flatten ++ t0.drop (k * bw)).drop (k * bw + bw) = t0.drop ((k + 1) * bw) := by
+          rw [drop_append_len _ _ (k * bw) bw hl, List.drop_drop, Nat.add_mul, Nat.one_mul]
+        rw [hX1, hX2, List.flatten_append, List.flatten_singleton]
+
+/-- the rows `GetMatrix` copies: `luminances[off + y*dataW : off + y*dataW + w]` -/
+def cropRow (data : List Nat) (dataW w off y : Nat) : Res (List Nat) := sliceN data (off + y * dataW) (off + y * dataW + w)
+
+theorem rowsCopy_eq (data : List Nat) (dataW w off : Nat) : ∀ (n s : Nat),
+    Luminance.rowsCopy data dataW w (off + s * dataW) n =
+      liftV ((mapME (cropRow data dataW w off) (List.range' s n)).map List.flatten)
+  | 0, s => rfl
+  | n + 1, s => by
+    simp only [Luminance.rowsCopy, List.range'_succ, mapME, cropRow, bind, Except.bind]
+    rw [slice_eq_liftV]
+    cases sliceN data (off + s * dataW) (off + s * dataW + w) with
+    | error e => rfl
+    | ok r =>
+      simp only [liftV]
+      have e : off + s * dataW + dataW = off + (s + 1) * dataW := by rw [Nat.add_mul]; omega
+      rw [e, rowsCopy_eq data dataW w off n (s + 1)]
+      cases mapME (cropRow data dataW w off) (List.range' (s + 1) n) <;> rfl
+
+/-- one row of the row-by-row copy with the upper bound `hiF len y` of the destination slice -/
+def cropStep (data : List Nat) (dataW w off : Nat) (hiF : Nat → Nat → Nat) (t : List Nat) (y : Nat) : Res (List Nat) :=
+  match cropRow data dataW w off y with
+  | .error e => .error e
+  | .ok r => copySegN t (y * w) (hiF t.length y) r
+
+/-- the mirror of `GetMatrix` of the RGB (`hiF = fun _ y => y*w + w`) and YUV (`hiF = fun len _ => len`) sources -/
+def getMatrixW (data : List Nat) (dataW dataH left top w h : Nat) (hiF : Nat → Nat → Nat) : Res (List Nat) :=
+  if w = dataW ∧ h = dataH then .ok data
+  else if w = dataW then (sliceN data (top * dataW + left) (top * dataW + left + w * h)).map
+      (fun s => copyInto (List.replicate (w * h) 0) s)
+  else (List.range' 0 h).foldlM (cropStep data dataW w (top * dataW + left) hiF) (List.replicate (w * h) 0)
+
+/-- **GetMatrix, mirror to model**: `Luminance.baseGetMatrix` for every view -/
+theorem getMatrixW_agrees (v : Luminance.View) (hiF : Nat → Nat → Nat)
+    (hh : ∀ len y, hiF len y = y * v.w + v.w ∨ hiF len y = len) :
+    Luminance.baseGetMatrix v = liftV (getMatrixW v.data v.dataW v.dataH v.left v.top v.w v.h hiF) := by
+  unfold Luminance.baseGetMatrix getMatrixW
+  by_cases h1 : v.w = v.dataW ∧ v.h = v.dataH
+  · simp only [h1, and_self, if_true]; rfl
+  · simp only [h1, if_false]
+    by_cases h2 : v.w = v.dataW
+    · simp only [h2, if_true]
+      rw [slice_eq_liftV]
+      cases hs : sliceN v.data (v.top * v.dataW + v.left) (v.top * v.dataW + v.left + v.dataW * v.h) with
+      | error e => rfl
+      | ok s =>
+        have hl := sliceN_length _ _ _ _ hs
+        simp only [Except.map, liftV]
+        congr 1
+        unfold copyInto
+        simp only [List.length_replicate, hl, Nat.le_refl, List.drop_eq_nil_of_le, List.append_nil]
+        rw [← hl, List.take_length]
+    · simp only [h2, if_false]
+      have h0 := rowsCopy_eq v.data v.dataW v.w (v.top * v.dataW + v.left) v.h 0
+      simp only [Nat.zero_mul, Nat.add_zero] at h0
+      rw [h0]
+      have hb := foldlM_blocks v.w v.h (cropRow v.data v.dataW v.w (v.top * v.dataW + v.left))
+        (cropStep v.data v.dataW v.w (v.top * v.dataW + v.left) hiF)
+        (fun j r hr => sliceN_length _ _ _ _ hr)
+        (by
+          intro t j hj ht
+          unfold cropStep
+          cases hr : cropRow v.data v.dataW v.w (v.top * v.dataW + v.left) j with
+          | error e => rfl
+          | ok r =>
+            have hrl : r.length = v.w := sliceN_length _ _ _ _ hr
+            have hjb : j * v.w + v.w ≤ v.h * v.w := by
+              have : (j + 1) * v.w ≤ v.h * v.w := Nat.mul_le_mul_right v.w hj
+              rw [Nat.add_mul] at this; omega
+            simp only []
+            have hhi : hiF t.length j = j * v.w + r.length ∨ hiF t.length j = t.length := by
+              rcases hh t.length j with h | h
+              · left; omega
+              · right; omega
+            rw [copySegN_block t (j * v.w) _ r (by omega) hhi, hrl])
+        v.h (Nat.le_refl _) (List.replicate (v.w * v.h) 0) (by simp [Nat.mul_comm])
+      rw [hb]
+      cases mapME _ (List.range' 0 v.h) with
+      | error e => rfl
+      | ok rows =>
+        simp only [Except.map, liftV]
+        congr 1
+        rw [List.drop_of_length_le (by simp [Nat.mul_comm])]
+        simp
+
+/-- `oldLuminas[i]` -/
+def rdR (l : List Nat) (i : Nat) : Res Nat :=
+  match l[i]? with
+  | some v => .ok v
+  | none => .error oob
+
+theorem idx_eq_liftV (l : List Nat) (i : Nat) : Luminance.idx l i = liftV (rdR l i) := by
+  unfold Luminance.idx rdR
+  cases l[i]? <;> rfl
+
+/-- column `left+width-1-j` of the view, top to bottom: row `j` of the rotated copy -/
+def rotRowR (data : List Nat) (dataW left top w h j : Nat) : Res (List Nat) :=
+  mapME (fun i => rdR data ((top + i) * dataW + (left + w - 1 - j))) (List.range' 0 h)
+
+/-- one element of the rotation loop: `newLuminas[j*height+i] = oldLuminas[(top+i)*dataWidth + x]` -/
+def rotCell (data : List Nat) (dataW left top w h j : Nat) (t : List Nat) (i : Nat) : Res (List Nat) :=
+  match rdR data ((top + i) * dataW + (left + w - 1 - j)) with
+  | .error e => .error e
+  | .ok v => setWord t (j * h + i) v
+
+def rotColW (data : List Nat) (dataW left top w h : Nat) (t : List Nat) (j : Nat) : Res (List Nat) :=
+  (List.range' 0 h).foldlM (rotCell data dataW left top w h j) t
+
+/-- the mirror of the rotation loops on the fresh array -/
+def rotateW (data : List Nat) (dataW left top w h : Nat) : Res (List Nat) :=
+  (List.range' 0 w).foldlM (rotColW data dataW left top w h) (List.replicate (w * h) 0)
+
+/-- one column written element by element = the column placed as a block -/
+theorem rotColW_block (data : List Nat) (dataW left top w h j : Nat) (t : List Nat) (hl : j * h + h ≤ t.length) :
+    rotColW data dataW left top w h t j =
+      match rotRowR data dataW left top w h j with
+      | .ok r => .ok (t.take (j * h) ++ r ++ t.drop (j * h + h))
+      | .error e => .error e := by
+  unfold rotColW rotRowR
+  have key : ∀ k, k ≤ h →
+      (List.range' 0 k).foldlM (rotCell data dataW left top w h j) t =
+        match mapME (fun i => rdR data ((top + i) * dataW + (left + w - 1 - j))) (List.range' 0 k) with
+        | .ok r => .ok (t.take (j * h) ++ r ++ t.drop (j * h + k))
+        | .error e => .error e := by
+    intro k
+    induction k with
+    | zero => intro _; simp [mapME, pure, Except.pure]
+    | succ k ih =>
+      intro hk
+      rw [List.range'_1_concat, List.foldlM_append, ih (by omega), mapME_append_single, Nat.zero_add]
+      have hlen : ∀ (l : List Nat) r, mapME (fun i => rdR data ((top + i) * dataW + (left + w - 1 - j))) l = .ok r →
+          r.length = l.length := by
+        intro l
+        induction l with
+        | nil => intro r h; simp only [mapME, Except.ok.injEq] at h; subst h; rfl
+        | cons a l ihl =>
+          intro r h
+          simp only [mapME] at h
+          cases hfa : rdR data ((top + a) * dataW + (left + w - 1 - j)) with
+          | error e => simp [hfa] at h
+          | ok b =>
+            cases hm : mapME (fun i => rdR data ((top + i) * dataW + (left + w - 1 - j))) l with
+            | error e => simp [hfa, hm] at h
+            | ok rs =>
+              simp only [hfa, hm, Except.ok.injEq] at h
+              subst h; simp [ihl rs hm]
+      cases hm : mapME (fun i => rdR data ((top + i) * dataW + (left + w - 1 - j))) (List.range' 0 k) with
+      | error e => simp [bind, Except.bind]
+      | ok r =>
+        have hrl : r.length = k := by simpa using hlen _ r hm
+        simp only [bind, Except.bind, List.foldlM, pure, Except.pure, rotCell]
+        cases rdR data ((top + k) * dataW + (left + w - 1 - j)) with
+        | error e => rfl
+        | ok v =>
+          simp only [setWord]
+          have hlt : j * h + k < (t.take (j * h) ++ r ++ t.drop (j * h + k)).length := by
+            simp [hrl]; omega
+          simp only [hlt, if_true]
+          congr 1
+          have e1 : (t.take (j * h) ++ r).length = j * h + k := by simp [hrl]; omega
+          rw [List.set_append_right _ _ (by rw [e1]; omega), e1, Nat.sub_self]
+          have hd : t.drop (j * h + k) = t[j * h + k]'(by omega) :: t.drop (j * h + (k + 1)) := by
+            rw [show j * h + (k + 1) = j * h + k + 1 by omega]
+            exact (List.getElem_cons_drop (by omega)).symm
+          rw [hd]
+          simp
+  rw [key h (Nat.le_refl _)]
+  cases mapME (fun i => rdR data ((top + i) * dataW + (left + w - 1 - j))) (List.range' 0 h) <;> rfl
+
+/-- **RotateCounterClockwise, mirror to model**: the rotation loops fill the fresh array with the model's rotated rows -/
+theorem rotateW_agrees (v : Luminance.View) :
+    (mapME (Luminance.rotRow v) (List.range v.w) |>.map List.flatten) =
+      liftV (rotateW v.data v.dataW v.left v.top v.w v.h) := by
+  unfold rotateW
+  have hrow : ∀ j, Luminance.rotRow v j = liftV (rotRowR v.data v.dataW v.left v.top v.w v.h j) := by
+    intro j
+    unfold Luminance.rotRow rotRowR
+    rw [List.range_eq_range', ← mapME_liftV]
+    congr 1
+    funext i
+    exact idx_eq_liftV _ _
+  have hm : mapME (Luminance.rotRow v) (List.range v.w) =
+      liftV (mapME (rotRowR v.data v.dataW v.left v.top v.w v.h) (List.range' 0 v.w)) := by
+    rw [List.range_eq_range', ← mapME_liftV]
+    congr 1
+    funext j
+    exact hrow j
+  rw [hm]
+  have hlen : ∀ j r, rotRowR v.data v.dataW v.left v.top v.w v.h j = .ok r → r.length = v.h := by
+    intro j r h
+    unfold rotRowR at h
+    have gen : ∀ (l : List Nat) r, mapME (fun i => rdR v.data ((v.top + i) * v.dataW + (v.left + v.w - 1 - j))) l = .ok r →
+        r.length = l.length := by
+      intro l
+      induction l with
+      | nil => intro r h; simp only [mapME, Except.ok.injEq] at h; subst h; rfl
+      | cons a l ihl =>
+        intro r h
+        simp only [mapME] at h
+        cases hfa : rdR v.data ((v.top + a) * v.dataW + (v.left + v.w - 1 - j)) with
+        | error e => simp [hfa] at h
+        | ok b =>
+          cases hm : mapME (fun i => rdR v.data ((v.top + i) * v.dataW + (v.left + v.w - 1 - j))) l with
+          | error e => simp [hfa, hm] at h
+          | ok rs =>
+            simp only [hfa, hm, Except.ok.injEq] at h
+            subst h; simp [ihl rs hm]
+    simpa using gen _ r h
+  have hb := foldlM_blocks v.h v.w (rotRowR v.data v.dataW v.left v.top v.w v.h)
+    (rotColW v.data v.dataW v.left v.top v.w v.h) hlen
+    (by
+      intro t j hj ht
+      have hjb : j * v.h + v.h ≤ v.w * v.h := by
+        have : (j + 1) * v.h ≤ v.w * v.h := Nat.mul_le_mul_right v.h hj
+        rw [Nat.add_mul] at this; omega
+      rw [rotColW_block v.data v.dataW v.left v.top v.w v.h j t (by omega)]
+      cases rotRowR v.data v.dataW v.left v.top v.w v.h j <;> rfl)
+    v.w (Nat.le_refl _) (List.replicate (v.w * v.h) 0) (by simp)
+  rw [hb]
+  cases mapME _ (List.range' 0 v.w) with
+  | error e => rfl
+  | ok rows =>
+    simp only [Except.map, liftV]
+    congr 1
+    rw [List.drop_of_length_le (by simp)]
+    simp
+
 end Gzx.K17b
